@@ -23,7 +23,10 @@ fn real_kids<'t>(n: &Node<'t, D>) -> Vec<Node<'t, D>> {
   children_vec(n).into_iter().filter(|c| !is_missing(c)).collect()
 }
 
-fn shape_ok(p: &PatternNode, n: &Node<D>, cut: &Cut) -> bool {
+/// structure only: a leaf whose TEXT differs is recorded in `altered` (pattern text, code text)
+/// and judged by the caller — a pattern that is handed code and stores other text for it has not
+/// kept the code it was cut from
+fn shape_ok(p: &PatternNode, n: &Node<D>, cut: &Cut, altered: &std::cell::RefCell<Vec<(String, String)>>) -> bool {
   let r = n.range();
   if let PatternNode::MetaVar { meta_var } = p {
     // a hole is legal only where we put one
@@ -39,9 +42,13 @@ fn shape_ok(p: &PatternNode, n: &Node<D>, cut: &Cut) -> bool {
       is_named,
       kind_id,
     } => {
-      n.is_leaf() && n.kind_id() == *kind_id && n.is_named() == *is_named && *text == n.text()
+      let ok = n.is_leaf() && n.kind_id() == *kind_id && n.is_named() == *is_named
       // a leaf that covers a hole extent must have become a MetaVar
-      && !cut.holes.iter().any(|(_, hr)| *hr == r)
+      && !cut.holes.iter().any(|(_, hr)| *hr == r);
+      if ok && *text != n.text() {
+        altered.borrow_mut().push((text.to_string(), n.text().to_string()));
+      }
+      ok
     }
     PatternNode::Internal { kind_id, children } => {
       if n.is_leaf() || n.kind_id() != *kind_id {
@@ -57,12 +64,12 @@ fn shape_ok(p: &PatternNode, n: &Node<D>, cut: &Cut) -> bool {
             .rposition(|k| k.range() == *sibs.last().unwrap() && k.is_named());
           if let (Some(a), Some(b)) = (first, last) {
             if children.len() == a + 1 + (ks.len() - b - 1) {
-              let ok_before = children[..a].iter().zip(&ks[..a]).all(|(p, k)| shape_ok(p, k, cut));
+              let ok_before = children[..a].iter().zip(&ks[..a]).all(|(p, k)| shape_ok(p, k, cut, altered));
               let ok_mid = matches!(&children[a], PatternNode::MetaVar { meta_var: MetaVariable::MultiCapture(name) } if name == v);
               let ok_after = children[a + 1..]
                 .iter()
                 .zip(&ks[b + 1..])
-                .all(|(p, k)| shape_ok(p, k, cut));
+                .all(|(p, k)| shape_ok(p, k, cut, altered));
               if ok_before && ok_mid && ok_after {
                 return true;
               }
@@ -70,7 +77,7 @@ fn shape_ok(p: &PatternNode, n: &Node<D>, cut: &Cut) -> bool {
           }
         }
       }
-      children.len() == ks.len() && children.iter().zip(&ks).all(|(p, k)| shape_ok(p, k, cut))
+      children.len() == ks.len() && children.iter().zip(&ks).all(|(p, k)| shape_ok(p, k, cut, altered))
     }
   }
 }
@@ -130,8 +137,30 @@ fn check_source(rep: &Reporter, spec: &LangSpec, src: &str, max_holes: usize, st
           continue;
         }
       };
-      if !shape_ok(&pat.node, n, &cut) || !pattern_has_all_holes(&pat.node, &cut) {
+      let altered = std::cell::RefCell::new(vec![]);
+      if !shape_ok(&pat.node, n, &cut, &altered) || !pattern_has_all_holes(&pat.node, &cut) {
         continue; // precondition "parses to the same tree shape" not met: counted, not judged
+      }
+      let altered = altered.into_inner();
+      if !altered.is_empty() {
+        // same structure, other leaf text. Legitimate only where the code's own leaf spells a sigil
+        // (`$` or the language's expando character), which pattern pre-processing rewrites
+        let ex = spec.lang.expando_char();
+        // ... or where tree-sitter tokenises the cut text differently out of context (the pattern's
+        // leaf is then still a piece of the text that was handed to Pattern::try_new). A leaf whose
+        // text occurs NOWHERE in the given text was invented on the way.
+        let unexplained: Vec<&(String, String)> = altered
+          .iter()
+          .filter(|(pt, code)| !code.contains('$') && !code.contains(ex) && !pt.contains(ex) && !cut.text.contains(pt.as_str()))
+          .collect();
+        if let Some((pt, code)) = unexplained.first() {
+          let class = if code.is_ascii() { "ascii" } else { "non-ascii" };
+          rep.violation(
+            &format!("pattern-leaf-text-occurs-nowhere-in-the-pattern-source:{class}"),
+            json!({"lang": spec.name, "src": src, "node": [n.range().start, n.range().end], "pattern": cut.text, "pattern_leaf": pt, "code_leaf": code}),
+          );
+        }
+        continue;
       }
       st.conform.fetch_add(1, Ordering::Relaxed);
       if !cut.holes.is_empty() || cut.multi.is_some() {
